@@ -86,9 +86,9 @@ func cmdCheck(args []string) int {
 		fmt.Fprintln(os.Stderr, err)
 		return 2
 	}
-	tmo := 10 * time.Second
+	tmo := 20 * time.Second
 	if *tier == "thorough" {
-		tmo = 60 * time.Second
+		tmo = 120 * time.Second
 	}
 	scratch, _ := os.MkdirTemp("", "govc")
 	defer os.RemoveAll(scratch)
